@@ -4,10 +4,12 @@
 //! exceed the ring-buffer capacity (the property's precondition) but is biased toward lead ==
 //! capacity, lead sign flips, re-splitting with frames pending and conversion to Rc branches.
 
-use crate::probe::{ProbeSignal, Pulls, TagFrame};
+use crate::probe::{InjectedCrash, ProbeSignal, Pulls, TagFrame};
+use std::cell::Cell;
+use std::rc::Rc;
 use dasp_ring_buffer::{Bounded, SliceMut};
 use dasp_signal::Signal;
-use simcore::{check_eq, Observer, Op, OpSpec, Rng, Scenario, Source, Violation};
+use simcore::{check, check_eq, Observer, Op, OpSpec, Rng, Scenario, Source, Violation};
 
 pub struct ForkScenario;
 
@@ -16,13 +18,15 @@ const O_PULL_B: u8 = 1;
 const O_BURST: u8 = 2; // a = branch (0/1), b = count
 const O_RESPLIT: u8 = 3;
 const O_TO_RC: u8 = 4;
+const O_CRASH_PULL: u8 = 5; // a = branch: the source's next() fails (unwinds) if this pull reaches it
 
-static OPS: [OpSpec; 5] = [
+static OPS: [OpSpec; 6] = [
     OpSpec { name: "pull_a", shrink: 0 },
     OpSpec { name: "pull_b", shrink: 0 },
     OpSpec { name: "burst", shrink: 2 },
     OpSpec { name: "resplit_by_ref", shrink: 0 },
     OpSpec { name: "to_rc", shrink: 0 },
+    OpSpec { name: "pull_source_crashes", shrink: 0 },
 ];
 
 const F_STALL: usize = 0;
@@ -34,6 +38,7 @@ const F_SOURCE_EOF: usize = 5;
 const F_LAGGARD_OVERTAKES: usize = 6;
 const F_CLONE: usize = 7;
 const F_LONE_LAGGARD: usize = 8;
+const F_SOURCE_CRASH: usize = 9;
 
 const P_LEAD_EQ_CAP: usize = 0;
 const P_CAP1: usize = 1;
@@ -68,6 +73,7 @@ struct Sched {
     allow_resplit: bool,
     leader: u8,
     drift: i64,
+    allow_crash: bool,
 }
 
 fn gen_op(r: &mut Rng, m: &Model, st: &mut Sched, rc: bool) -> Option<Op> {
@@ -79,6 +85,9 @@ fn gen_op(r: &mut Rng, m: &Model, st: &mut Sched, rc: bool) -> Option<Op> {
     }
     if !rc && st.allow_rc && r.chance(1, 40) {
         return Some(Op::k(O_TO_RC));
+    }
+    if st.allow_crash && r.chance(1, 10) {
+        return Some(Op::kab(O_CRASH_PULL, r.range(0, 1), 0));
     }
     let lead = m.ca as i64 - m.cb as i64;
     let op = match st.policy {
@@ -200,6 +209,7 @@ fn epoch<F: TagFrame, B: Branches<F>>(
     st: &mut Sched,
     end: Option<u64>,
     pulls: &Pulls,
+    crash: &Rc<Cell<u32>>,
     src: &mut Source,
     obs: &mut Observer,
 ) -> Result<Exit, Violation> {
@@ -225,10 +235,11 @@ fn epoch<F: TagFrame, B: Branches<F>>(
                 }
                 return Ok(Exit::ToRc);
             }
-            O_PULL_A | O_PULL_B | O_BURST => {
+            O_PULL_A | O_PULL_B | O_BURST | O_CRASH_PULL => {
                 let (branch, k) = match op.k {
                     O_PULL_A => (0u8, 1i64),
                     O_PULL_B => (1u8, 1i64),
+                    O_CRASH_PULL => ((op.a.clamp(0, 1)) as u8, 1i64),
                     _ => ((op.a.clamp(0, 1)) as u8, op.b.clamp(1, 300_000)),
                 };
                 if !m.can_pull(branch) {
@@ -251,7 +262,39 @@ fn epoch<F: TagFrame, B: Branches<F>>(
                     let c = if branch == 0 { m.ca } else { m.cb };
                     let other = if branch == 0 { m.cb } else { m.ca };
                     let want: F = ProbeSignal::<F>::expect(5, end, c);
-                    let got = if branch == 0 { br.next_a() } else { br.next_b() };
+                    let got = if op.k == O_CRASH_PULL {
+                        // the source fails on its next pull; the host catches the failure and carries on
+                        crash.set(1);
+                        let r = std::panic::catch_unwind(std::panic::AssertUnwindSafe(|| if branch == 0 { br.next_a() } else { br.next_b() }));
+                        let unfired = crash.replace(0) != 0;
+                        match r {
+                            Ok(f) => {
+                                // served from the queue: the source must not have been touched
+                                check!(obs, unfired, "fork.source-crash", "the source's failure was swallowed: next() returned a frame although the source unwound");
+                                f
+                            }
+                            Err(p) => {
+                                if !p.is::<InjectedCrash>() {
+                                    std::panic::resume_unwind(p);
+                                }
+                                obs.fault(F_SOURCE_CRASH);
+                                if m.ca != m.cb {
+                                    obs.inflight();
+                                }
+                                check!(obs, c >= other, "fork.source-pulls", "a lagging branch (at {}, other at {}) pulled the source", c, other);
+                                // no frame was produced: nothing may have been consumed, queued or released
+                                check_eq!(obs, pulls.get(), m.ca.max(m.cb), "fork.source-pulls", "source pulls after a failed pull");
+                                check_eq!(obs, br.pending_a() as u64, m.cb.saturating_sub(m.ca), "fork.pending", "pending_frames() of branch A after the source failed (A at {}, B at {})", m.ca, m.cb);
+                                check_eq!(obs, br.pending_b() as u64, m.ca.saturating_sub(m.cb), "fork.pending", "pending_frames() of branch B after the source failed (A at {}, B at {})", m.ca, m.cb);
+                                obs.state(m.abs(rc) ^ 0x8000_0000, op.k);
+                                continue;
+                            }
+                        }
+                    } else if branch == 0 {
+                        br.next_a()
+                    } else {
+                        br.next_b()
+                    };
                     if c < other && c + 1 == other {
                         obs.probe(P_CAUGHT_UP_EXACTLY);
                     }
@@ -353,10 +396,12 @@ fn drive<F: TagFrame, D: SliceMut<Element = F> + ForkClone<ProbeSignal<F>>>(
         allow_resplit: src.cfg("allow_resplit", 0, 1, |r| r.chance(1, 2) as i64) == 1,
         leader: 0,
         drift: 0,
+        allow_crash: src.cfg("allow_crash", 0, 1, |r| r.chance(1, 3) as i64) == 1,
     };
     let start_rc = src.cfg("start_rc", 0, 1, |r| r.chance(1, 6) as i64) == 1;
     let clone_on_resplit = src.cfg("clone_on_resplit", 0, 1, |r| r.chance(1, 3) as i64) == 1;
     let (sig, pulls) = ProbeSignal::<F>::new(5, end);
+    let crash = sig.crash.clone();
     // an empty ring buffer whose start index may already have wrapped (recovered state)
     let rb = Bounded::from_raw_parts(start, 0, storage);
     if start != 0 {
@@ -378,7 +423,7 @@ fn drive<F: TagFrame, D: SliceMut<Element = F> + ForkClone<ProbeSignal<F>>>(
     let mut to_rc = start_rc;
     while !to_rc {
         let mut br = fork.by_ref();
-        match epoch(&mut br, false, &mut m, &mut st, end, &pulls, src, obs)? {
+        match epoch(&mut br, false, &mut m, &mut st, end, &pulls, &crash, src, obs)? {
             Exit::End => return Ok(()),
             Exit::Resplit => {
                 // snapshot/restore: a clone of the un-split fork carries source, queue and flag
@@ -394,7 +439,7 @@ fn drive<F: TagFrame, D: SliceMut<Element = F> + ForkClone<ProbeSignal<F>>>(
         }
     }
     let mut br = fork.by_rc();
-    epoch(&mut br, true, &mut m, &mut st, end, &pulls, src, obs)?;
+    epoch(&mut br, true, &mut m, &mut st, end, &pulls, &crash, src, obs)?;
     // epilogue: one of the reference-counted handles is dropped while the other may still lag; the
     // survivor is owed every frame queued for it and then carries on with the source alone
     let drop_branch = src.cfg("drop_branch", 0, 2, |r| if r.chance(1, 3) { r.range(1, 2) } else { 0 });
@@ -493,6 +538,7 @@ impl Scenario for ForkScenario {
             "laggard overtakes in one burst (queue hand-over)",
             "fork cloned between two splits (possibly with frames pending), the clone is used from then on",
             "one reference-counted handle dropped while the other still lags",
+            "source crash: the source's next() unwinds in the middle of a branch pull; the host catches it and carries on",
         ]
     }
     fn probes(&self) -> &'static [&'static str] {
